@@ -14,7 +14,8 @@ Tie to the code (model: coq/theories/Results.v, theorems: coq/props/C16.v):
   stream `single`  the same programs forced to have a ONE-simulant population and a binned stratification
                    (was finding F-R: `_bin_data` squeezed the 1x1 frame to a scalar and raised; fixed by 44312e20).
   stream `strat`   ResultsContext.add_stratification + Stratification.stratify on single values (bin edges exact).
-  stream `resolve` ResultsManager._get_stratifications against sort(dedup(default+requested+additional) - excluded).
+  stream `resolve` the stratification tuple of an observation registered through ResultsManager.register_observation against
+                   sort(dedup(default+requested+additional) - excluded).
 Direct oracle: results recomputed from the snapshots with plain python loops after EVERY event; conservation law
 (sum over strata of the implementation's increment = aggregate over the eligible simulants).
 """
@@ -41,8 +42,10 @@ LEVEL_NOTE = ""
 TRUSTED = [
     "C16: mapper outputs, pandas `query` verdicts, aggregator weights and to_observe verdicts are computed by the harness "
     "from its own snapshot of the state table (public get_population) and fed to the model as data",
-    "C16: observations' registered (when, pop_filter, stratifications) and stratifications' categories are cross-checked "
-    "through the private ResultsContext attributes when readable (read defensively; skipped otherwise)",
+    "C16: no private attribute is read by name: registered observation / stratification objects are found BY TYPE under "
+    "the ResultsManager and read through their public dataclass fields (cross-check skipped when not found); the unit "
+    "streams set a bare ResultsManager up through its public setup(builder) with a stub builder and register through the "
+    "public register_* methods (skip-and-count when that is no longer possible)",
     "C16: Results.v transcribes results/{manager,context,stratification,observation}.py incl. pandas groupby(observed="
     "False)/dropna/reindex/pd.cut(right=False) semantics - validated on the explored cases only",
 ]
@@ -603,23 +606,97 @@ def execute(case):
     return out
 
 
+def _walk(obj, cls, depth=8, _seen=None):
+    """instances of `cls` reachable from `obj` through containers and the attributes of vivarium objects (bounded): the
+    harness finds internal objects BY TYPE, so that renaming a private attribute or turning a list into a dict is not a
+    change it can see"""
+    _seen = set() if _seen is None else _seen
+    if id(obj) in _seen or depth < 0:
+        return []
+    _seen.add(id(obj))
+    out = []
+    if isinstance(obj, cls):
+        out.append(obj)
+    if isinstance(obj, dict):
+        items = list(obj.keys()) + list(obj.values())
+    elif isinstance(obj, (list, tuple, set, frozenset)):
+        items = list(obj)
+    elif type(obj).__module__.startswith("vivarium") and hasattr(obj, "__dict__"):
+        items = list(vars(obj).values())
+    else:
+        items = []
+    for x in items:
+        out += _walk(x, cls, depth - 1, _seen)
+    return out
+
+
+def _results_manager(sim):
+    from vivarium.framework.results.manager import ResultsManager
+    found = [v for v in vars(sim).values() if isinstance(v, ResultsManager)]
+    return found[0] if found else None
+
+
 def real_observations(sim):
-    """name -> (when, pop_filter, stratification tuple), read DEFENSIVELY off private attributes (None if the
-    internals were reorganised: the registration cross-check is then skipped, the results themselves still decide)."""
+    """name -> (when, pop_filter, stratification tuple) of the registered observation objects (public dataclass fields),
+    found by type; None if unreadable: the registration cross-check is then skipped, the results themselves still decide"""
     try:
-        found = {}
-        for when, groups in sim._results._results_context.observations.items():
-            for (pop_filter, strat_names), obs_list in groups.items():
-                for o in obs_list:
-                    found[o.name] = (when, pop_filter, strat_names, o)
-        return found
+        from vivarium.framework.results.observation import BaseObservation
+        mgr = _results_manager(sim)
+        if mgr is None:
+            return None
+        return {o.name: (o.when, o.pop_filter, o.stratifications, o) for o in _walk(mgr, BaseObservation)}
     except Exception:
         return None
 
 
 def real_stratifications(sim):
     try:
-        return {s.name: s for s in sim._results._results_context.stratifications}
+        from vivarium.framework.results.stratification import Stratification
+        mgr = _results_manager(sim)
+        if mgr is None:
+            return None
+        return {st.name: st for st in _walk(mgr, Stratification)}
+    except Exception:
+        return None
+
+
+class _Inert:
+    """stands for every service of a builder the unit-level streams do not need"""
+    def __getattr__(self, name):
+        return _Inert()
+
+    def __call__(self, *a, **k):
+        return _Inert()
+
+
+def bare_manager(defaults, excluded):
+    """A ResultsManager set up through its PUBLIC setup(builder) with a stub builder that only carries the stratification
+    configuration (no simulation).  Returns (manager, context) or None when this cannot be done any more (skip-and-count)."""
+    from vivarium.framework.results.context import ResultsContext
+    from vivarium.framework.results.manager import ResultsManager
+
+    class _Excl:
+        @staticmethod
+        def to_dict():
+            return {k: list(v) for k, v in excluded.items()}
+
+    class _Strat:
+        default = list(defaults)
+        excluded_categories = _Excl
+
+    class _Cfg(_Inert):
+        stratification = _Strat
+
+    class _Builder(_Inert):
+        configuration = _Cfg()
+
+    try:
+        mgr = ResultsManager()
+        mgr.setup(_Builder())
+        ctxs = _walk(mgr, ResultsContext)
+        if not ctxs:
+            return None
+        return mgr, ctxs[0]
     except Exception:
         return None
 
@@ -962,20 +1039,13 @@ def gen_strat_case(rng):
 def run_strat(case):
     import numpy as np
     import pandas as pd
-    from vivarium.framework.results.context import ResultsContext
-    from vivarium.framework.results.manager import ResultsManager
+    from vivarium.framework.results.stratification import Stratification
     intern = Interner()
     s, cfg = case["strat"], case["cfg"]
-
-    class _Log:
-        def debug(self, *a, **k): pass
-        info = warning = debug
-    mgr = ResultsManager()
-    mgr.logger = _Log()
-    ctx = mgr._results_context
-    ctx.logger = _Log()
-    ctx.excluded_categories = {k: list(v) for k, v in cfg.items()}
-    mgr.get_value = lambda name: None
+    bare = bare_manager([], cfg)
+    if bare is None:
+        return Result(ok=True, coq=None, key=None, obs={"skipped": "no bare ResultsManager"}, tags=("unobservable_skipped",))
+    mgr, ctx = bare
     if s["kind"] in ("default", "binned"):
         nsrc = 1
         sources = ["x"]
@@ -1013,8 +1083,12 @@ def run_strat(case):
     vals_coq = []
     trace = []
     increasing = s["kind"] != "binned" or all(a < b for a, b in zip(s["edges"], s["edges"][1:]))
-    if code == 0 and len(ctx.stratifications) == 1:
-        st = ctx.stratifications[0]
+    registered = _walk(mgr, Stratification)
+    if code == 0 and len(registered) != 1:
+        return Result(ok=True, coq=None, key=None, obs={"skipped": "registered stratification not found"},
+                      tags=("unobservable_skipped",))
+    if code == 0:
+        st = registered[0]
         keep = [c for c in cats if c not in to_ex]
         for v in case["vals"]:
             # a frame of `frame_rows` rows: the value under test first, then valid filler values
@@ -1070,21 +1144,95 @@ def gen_resolve(rng):
 
 
 def run_resolve(case):
-    from vivarium.framework.results.manager import ResultsManager
-    mgr = ResultsManager()
-    mgr._results_context.default_stratifications = list(case["d"])
-    got = mgr._get_stratifications(list(case["r"]), list(case["a"]), list(case["e"]))
+    """the stratification tuple of an adding observation registered through the manager's PUBLIC register_observation
+    (default list from the configuration, requested / additional / excluded lists as arguments), read off the registered
+    observation object"""
+    from vivarium.framework.results.observation import AddingObservation, BaseObservation
+    bare = bare_manager(case["d"], {})
+    got = None
+    if bare is not None:
+        mgr, ctx = bare
+        try:
+            mgr.register_observation(observation_type=AddingObservation, is_stratified=True, name="o", pop_filter="",
+                                     when="collect_metrics", requires_columns=[], requires_values=[],
+                                     results_formatter=lambda measure, results: results,
+                                     stratifications=list(case["r"]), additional_stratifications=list(case["a"]),
+                                     excluded_stratifications=list(case["e"]), aggregator_sources=None, aggregator=len,
+                                     to_observe=lambda event: True)
+            obs = [o for o in _walk(mgr, BaseObservation) if o.name == "o"]
+            got = obs[0].stratifications if len(obs) == 1 else None
+        except Exception:
+            got = None
+    if got is None:
+        return Result(ok=True, coq=None, key=None, obs={"skipped": "registration path not available"}, tags=("unobservable_skipped",))
     it = list(set(case["d"] + case["r"] + case["a"]) - set(case["e"]))
     spec = tuple(sorted((set(case["d"]) | set(case["r"]) | set(case["a"])) - set(case["e"])))
     ok = tuple(got) == spec and isinstance(got, tuple)
     ids = lambda ns: zl(NAME_ID[n] for n in ns)
     coq = "(" + cpair(ids(case["d"]), ids(case["r"]), ids(case["a"]), ids(case["e"]), ids(it), ids(got)) + " : resolve_case)"
     nontrivial = any(case[k] for k in "drae")
-    return Result(ok=ok, msg="" if ok else f"_get_stratifications gave {got}, expected {spec}", coq=coq,
+    return Result(ok=ok, msg="" if ok else f"the observation's stratifications are {got}, expected {spec}", coq=coq,
                   key=case if nontrivial else None, obs={"tuple": list(got)}, tags=(f"len{min(len(got), 6)}",))
 
 
 # ----------------------------------------------------------------------------------------------------------------
+def shrink_sim(case):
+    """smaller programs: fewer steps, observations, stratifications, script operations, simulants, configuration"""
+    import copy
+    if case["steps"] > 1:
+        c = copy.deepcopy(case); c["steps"] -= 1
+        c["script"] = [op for op in c["script"] if op[0] < c["steps"]]; yield c
+    for i in range(len(case["obs"])):
+        if len(case["obs"]) > 1:
+            c = copy.deepcopy(case); del c["obs"][i]; yield c
+    for i, st in enumerate(case["strats"]):
+        c = copy.deepcopy(case); del c["strats"][i]
+        if not any(x["name"] == st["name"] for x in c["strats"]):
+            for o in c["obs"]:
+                o["add"] = [n for n in o["add"] if n != st["name"]]
+                o["excl"] = [n for n in o["excl"] if n != st["name"]]
+            c["defaults"] = [n for n in c["defaults"] if n != st["name"]]
+            c["cfg_excl"].pop(st["name"], None)
+        yield c
+    for i in range(len(case["script"])):
+        c = copy.deepcopy(case); del c["script"][i]; yield c
+    if case["n0"] > 1:
+        c = copy.deepcopy(case); c["n0"] -= 1; yield c
+        c = copy.deepcopy(case); c["n0"] = max(1, case["n0"] // 2); yield c
+    if case["defaults"]:
+        c = copy.deepcopy(case); c["defaults"] = []; yield c
+    for k in list(case["cfg_excl"]):
+        c = copy.deepcopy(case); del c["cfg_excl"][k]; yield c
+    for i, o in enumerate(case["obs"]):
+        for key in ("add", "excl"):
+            for j in range(len(o[key])):
+                c = copy.deepcopy(case); del c["obs"][i][key][j]; yield c
+        if o["to_observe"] != 0:
+            c = copy.deepcopy(case); c["obs"][i]["to_observe"] = 0; yield c
+        if o["filter"] not in (None, 1):
+            c = copy.deepcopy(case); c["obs"][i]["filter"] = 1; yield c
+    for i, st in enumerate(case["strats"]):
+        if st["excl"]:
+            c = copy.deepcopy(case); c["strats"][i]["excl"] = []; yield c
+
+
+def shrink_strat(case):
+    import copy
+    for i in range(len(case["vals"])):
+        c = copy.deepcopy(case); del c["vals"][i]; yield c
+    if case["cfg"]:
+        c = copy.deepcopy(case); c["cfg"] = {}; yield c
+    if case["frame_rows"] > 1:
+        c = copy.deepcopy(case); c["frame_rows"] = 1; yield c
+
+
+def shrink_resolve(case):
+    import copy
+    for k in "drae":
+        for i in range(len(case[k])):
+            c = copy.deepcopy(case); del c[k][i]; yield c
+
+
 def _corpus(name):
     import json
     import os
@@ -1101,13 +1249,13 @@ def streams(tier):
     imp = "From Viv Require Import Common Results."
     return [
         Stream(name="sim", imports=imp, check="check_sim", gen=gen_sim, run=run_sim, n_quick=100, n_thorough=1200,
-               corpus=lambda: _corpus("sim"),
+               corpus=lambda: _corpus("sim"), shrink=shrink_sim,
                doc="whole simulations: probe snapshots -> model -> get_results()"),
         Stream(name="single", imports=imp, check="check_sim", gen=gen_single, run=run_sim, n_quick=12, n_thorough=60,
-               corpus=lambda: _corpus("single"),
+               corpus=lambda: _corpus("single"), shrink=shrink_sim,
                doc="one-simulant populations with a binned stratification (was finding F-R, fixed)"),
         Stream(name="strat", imports=imp, check="check_strat", gen=gen_strat_case, run=run_strat, n_quick=400,
-               n_thorough=6000, corpus=lambda: _corpus("strat")),
+               n_thorough=6000, corpus=lambda: _corpus("strat"), shrink=shrink_strat),
         Stream(name="resolve", imports=imp, check="check_resolve", gen=gen_resolve, run=run_resolve, n_quick=400,
-               n_thorough=6000, corpus=lambda: _corpus("resolve")),
+               n_thorough=6000, corpus=lambda: _corpus("resolve"), shrink=shrink_resolve),
     ]
